@@ -106,12 +106,22 @@ class CannotBuild(Exception):
     """The language has no constructor for this operator (e.g. LTL.E, PL.X)."""
 
 
-def to_lib(t, Lang, raw_leaves=False):
+def to_lib(t, Lang, raw_leaves=False, share=None):
     """Build the library object bottom-up with Lang's own constructors.
 
     raw_leaves: pass atoms as str and constants as bool to the parent constructor (the
     documented shortcut), instead of explicit AtomicProposition/Bool objects.
+    share: a dict; equal subtrees are then built ONCE and the same object is used at every place
+    (req = And(p, q); G(req --> F(req))), as user code that keeps a subformula in a variable does.
     """
+    if share is not None:
+        if t not in share:
+            share[t] = _to_lib(t, Lang, raw_leaves, share)
+        return share[t]
+    return _to_lib(t, Lang, raw_leaves, None)
+
+
+def _to_lib(t, Lang, raw_leaves, share):
     k = t[0]
     if k == 'ap':
         return Lang.AtomicProposition(t[1])
@@ -129,7 +139,7 @@ def to_lib(t, Lang, raw_leaves=False):
         elif raw_leaves and c[0] in ('true', 'false'):
             kids.append(c[0] == 'true')
         else:
-            kids.append(to_lib(c, Lang, raw_leaves))
+            kids.append(to_lib(c, Lang, raw_leaves, share))
     return cls(*kids)
 
 
@@ -563,6 +573,19 @@ def _count(t, x):
     if t[0] in LEAF:
         return 0
     return sum(_count(c, x) for c in t[1:])
+
+
+def subst_each(t, x, by):
+    """Replace the occurrences of x in t, in pre-order, by the successive items of the list `by`."""
+    it = iter(by)
+
+    def rec(t):
+        if t == x:
+            return next(it)
+        if t[0] in LEAF:
+            return t
+        return (t[0],) + tuple(rec(c) for c in t[1:])
+    return rec(t)
 
 
 def subst(t, x, by):
